@@ -1709,7 +1709,7 @@ func updateArraySlice(v []any, m map[string]any, path []any, n any, a allocator)
 		}
 		return v, nil
 	}
-	u, err := update(v[start:end], path, n, a)
+	u, err := update(v[start:end:end], path, n, a)
 	if err != nil {
 		return nil, err
 	}
